@@ -120,6 +120,7 @@ pub fn exec(line: &str) -> String {
         }
     }));
     vclock::disable();
+    close_leaked(&path);
     if res.is_err() { out.push("panic".into()); }
     out.join(" ; ")
 }
